@@ -5,6 +5,9 @@
    for every items_per_slot, every resolution >= 1 and every accepted entry list. *)
 From BT Require Import Base.Util Base.Float Model.RTree Model.BBIFile Model.BigWigWrite Model.BedSweep Spec.Depth
   Model.EntryBedSweep Proofs.DepthStats Proofs.SweepRLE Proofs.BedSummary Proofs.BedTile Proofs.ZoomLevels.
+From BT Require Import Generated.Consts Model.BBIRead Proofs.RTreeCodec Proofs.ZoomQuery Proofs.ZoomBwLevels
+  Proofs.C08FileGeom Proofs.C08FileCodec Proofs.C08FileQuery.
+From BT Require Model.BigBedWrite Proofs.BedZoomFit Proofs.BedEndToEnd.
 Local Open Scope N_scope.
 
 (* shared with C06: the sweep emits the run-length encoding of the depth *)
@@ -94,21 +97,93 @@ Theorem C08_file_levels : forall fp two_pass o sizes input sum levels cs,
 Proof. intros. split; [eapply levels_positive | eapply levels_from_records]; eassumption. Qed.
 Print Assumptions C08_file_levels.
 
-(* Zoom query, the part that is about the records: the reader's inclusive test keeps every record that
-   meets the range [s, e).  FULL STATEMENT (not proved here): get_zoom_interval on the written file
-   returns every record of the level meeting the range; it needs in addition that the index search
-   returns every block meeting the range (C05_search_bytes_eq_scan, proved) and that the zoom sections'
-   recorded spans contain their records (first start / last end of an ordered list: C08_ordered_disjoint),
-   composed through the byte image of the bigBed writer (C02/C09).  Validated on the real reader by the
-   correspondence check (range queries on record boundaries). *)
-Theorem C08_zoom_query_partial : forall (recs : list zrec) s e z,
-  In z recs -> z_start z < e -> s < z_end z ->
-  In z (filter (fun z => (s <=? z_end z) && (z_start z <=? e)) recs).
+(* ==== on the BYTES of the written file (Model/BigBedWrite.v bb_write / bb_write_multipass, every arithmetic mode) ====
+   Hypotheses ([zoom_file_hyps], all satisfiable: C08_file_example): field widths only -- block_size <= 65535, fewer
+   than 65536 chromosomes, names NUL-free and shorter than 2^32, entry ends and chromosome sizes below 2^32, file at
+   most 2^64 bytes; [zoom_res_u32]: the requested resolutions are below 2^32 (single pass: the normalised size list;
+   two passes: a manual list; the automatic two-pass ladder is cut there by the code).  Nothing is asked of the
+   entries beyond being accepted by the writer: overlapping, nested, identical, zero-length (also [0,0)) all covered. *)
+
+(* the zoom directory read back from the file: strictly increasing from >= 1, at most MAX_ZOOM_LEVELS entries *)
+Theorem C08_file_levels_increasing : forall two_pass fp o sizes autosql input f,
+  BedZoomFit.bb_write_either two_pass fp o sizes autosql input = Ok f ->
+  zoom_file_hyps o sizes input f -> zoom_res_u32 two_pass o ->
+  exists i, read_info f = Ok i /\ inc_from 0 (map zh_res (i_zooms i)) /\ Nlen (i_zooms i) <= MAX_ZOOM_LEVELS.
 Proof.
-  intros recs s e z Hin H1 H2. apply filter_In. split; [exact Hin|].
-  destruct (N.leb_spec s (z_end z)); destruct (N.leb_spec (z_start z) e); cbn [andb]; try reflexivity; exfalso; lia.
+  intros two_pass fp o sizes autosql input f Hw Hh Hu.
+  destruct (zoom_query_on_file two_pass fp o sizes autosql input f Hw Hh Hu) as (i & A & B & C & _).
+  exists i. auto.
 Qed.
-Print Assumptions C08_zoom_query_partial.
+Print Assumptions C08_file_levels_increasing.
+
+(* FULL zoom query: for every resolution r of the directory, every chromosome c that had entries ([bruns]: the
+   runs of the input, = the per-chromosome entry lists), every range [s, e] and every inflate function (the file
+   is uncompressed): the reader -- directory lookup, index root, pointer-chasing R-tree search on the index bytes
+   (C05), block reads, record decode, record filter -- returns exactly the records [bb_zoom_records] yields for c
+   (under the id the chromosome tree gives c) at resolution r that pass the reader's inclusive overlap test, in
+   order, each once; what the f32 storage does to a record is [zrec_read]: chromosome, start, end and covered count
+   come back unchanged, every statistic x comes back as f32_of_bits (bits_of_f32 (to_f32 fp x)) ([f32_stored]; the
+   item count is not stored and reads as 0).  The records are those C08_ordered_disjoint .. C08_stats
+   characterise (fp = exact; for any other mode the same chromosomes/starts/ends/covered counts:
+   C08_geometry_any_mode).  Sections sorted by (chromosome, start) -- C05's hypothesis -- is PROVED for what the
+   writer lays out: records of a chromosome ordered (tiling invariant), chromosome ids increasing in file order. *)
+Theorem C08_zoom_query : forall two_pass fp o sizes autosql input f,
+  BedZoomFit.bb_write_either two_pass fp o sizes autosql input = Ok f ->
+  zoom_file_hyps o sizes input f -> zoom_res_u32 two_pass o ->
+  exists i, read_info f = Ok i /\
+    forall r, In r (map zh_res (i_zooms i)) -> 1 <= r /\
+    forall infl c es s e, In (c, es) (BigBedWrite.bruns input) ->
+      exists q secs, chrom_id i c = Ok q
+        /\ bb_zoom_records fp (o_ips o) r q (map BigBedWrite.to_sw es) = Ok secs
+        /\ zoom_interval infl f i c s e r
+           = Ok (map (zrec_read fp) (filter (fun z => (s <=? z_end z) && (z_start z <=? e)) (concat secs))).
+Proof.
+  intros two_pass fp o sizes autosql input f Hw Hh Hu.
+  destruct (zoom_query_on_file two_pass fp o sizes autosql input f Hw Hh Hu) as (i & A & _ & _ & D).
+  exists i. split; [exact A|exact D].
+Qed.
+Print Assumptions C08_zoom_query.
+
+(* the property's wording: a zoom range query returns every record intersecting the range (and only
+   records of the level that touch it) *)
+Theorem C08_zoom_query_complete : forall two_pass fp o sizes autosql input f,
+  BedZoomFit.bb_write_either two_pass fp o sizes autosql input = Ok f ->
+  zoom_file_hyps o sizes input f -> zoom_res_u32 two_pass o ->
+  exists i, read_info f = Ok i /\
+    forall r, In r (map zh_res (i_zooms i)) ->
+    forall infl c es s e, In (c, es) (BigBedWrite.bruns input) ->
+      exists q secs ans, chrom_id i c = Ok q
+        /\ bb_zoom_records fp (o_ips o) r q (map BigBedWrite.to_sw es) = Ok secs
+        /\ zoom_interval infl f i c s e r = Ok ans
+        /\ (forall z, In z (concat secs) -> z_start z < e -> s < z_end z -> In (zrec_read fp z) ans)
+        /\ (forall a, In a ans -> exists z, In z (concat secs) /\ a = zrec_read fp z /\ s <= z_end z /\ z_start z <= e).
+Proof.
+  intros two_pass fp o sizes autosql input f Hw Hh Hu.
+  destruct (zoom_query_on_file two_pass fp o sizes autosql input f Hw Hh Hu) as (i & A & _ & _ & D).
+  exists i. split; [exact A|]. intros r Hr infl c es s e Hce. destruct (D r Hr) as [_ D'].
+  destruct (D' infl c es s e Hce) as (q & secs & Hq & Hs & Hz). exists q, secs. eexists. split; [exact Hq|]. split; [exact Hs|].
+  split; [exact Hz|]. split.
+  - intros z Hin H1 H2. apply in_map. apply filter_In. split; [exact Hin|].
+    apply andb_true_iff. split; apply N.leb_le; lia.
+  - intros a Ha. apply in_map_iff in Ha as [z [<- Hz']]. apply filter_In in Hz' as [Hin Hk].
+    apply andb_true_iff in Hk as [H1 H2]. apply N.leb_le in H1, H2. exists z. auto.
+Qed.
+Print Assumptions C08_zoom_query_complete.
+
+(* chromosome, start, end and covered count of every record, and the cut into sections, do not depend on the
+   arithmetic mode: the run under any fp is geometry-equal to the exact run the theorems above are about *)
+Theorem C08_geometry_any_mode : forall fp fp' ips size chrom es secs,
+  bb_zoom_records fp ips size chrom es = Ok secs ->
+  exists secs', bb_zoom_records fp' ips size chrom es = Ok secs' /\ Forall2 (Forall2 geq) secs secs'.
+Proof. exact zoom_records_geq. Qed.
+Print Assumptions C08_geometry_any_mode.
+
+(* the list-level core of the query theorem (C07's argument on any record lists): sections whose recorded span
+   [first start, last end] misses the range hold no record the reader's filter keeps *)
+Theorem C08_zoom_query_sections : forall q s e (secs : list (list zrec)), Forall sec_ok secs ->
+  flat_map (filter (zkeep q s e)) (filter (zsec_hit q s e) secs) = filter (zkeep q s e) (concat secs).
+Proof. exact zoom_query_sections. Qed.
+Print Assumptions C08_zoom_query_sections.
 
 (* ---- non-vacuity ---- *)
 Definition ent (s e : N) : entry := {| e_start := s; e_end := e; e_rest := [] |}.
@@ -128,3 +203,53 @@ Proof.
   - eexists. split; vm_compute; reflexivity.
 Qed.
 (* record [22,32) holds 3 covered bases (22, 30, 31): the 7 uncovered bases between are not counted *)
+
+(* ---- non-vacuity at file level: a concrete bigBed, both writers, IEEE arithmetic ----
+   two chromosomes; "a" as above, "b" with a [0,0) entry and a short one; manual list [10; 0; 4; 10] (a zero and a
+   duplicate: read back as [4; 10]); items_per_slot 2, block_size 2 (the level-4 index of "a" has several levels).
+   The hypotheses of C08_zoom_query hold, and the reader run on the 2279 bytes returns, for "a" 5..31 at
+   resolution 10, the three records meeting the range with the statistics of C08_example_hyps as f32 bit
+   patterns (min 1.0, max 3.0, sum 17.0, sumsq 35.0 for [0,10)), for "b" the single record [7,9). *)
+Definition fx_o : opts :=
+  {| o_compress := false; o_ips := 2; o_bs := 2; o_izoom := 10; o_maxzooms := 10; o_manual := Some [10; 0; 4; 10]; o_sort_all := true |}.
+Definition bent (s e : N) : BigBedWrite.entry := {| BigBedWrite.e_start := s; BigBedWrite.e_end := e; BigBedWrite.e_rest := [] |}.
+Definition fx_input : list BigBedWrite.bitem :=
+  map (fun x => ([97], x)) [bent 0 5; bent 0 5; bent 3 3; bent 3 12; bent 22 23; bent 30 61]
+  ++ map (fun x => ([98], x)) [bent 0 0; bent 7 9].
+Definition fx_sizes : list (name * N) := [([97], 100); ([98], 50)].
+Definition zview (z : zrec) :=
+  (z_start z, z_end z, su_bases (z_sum z), bits_of_f32 (su_min (z_sum z)), bits_of_f32 (su_max (z_sum z)),
+   bits_of_f32 (su_sum (z_sum z)), bits_of_f32 (su_sumsq (z_sum z))).
+Definition fx_run (two_pass : bool) :=
+  match BedZoomFit.bb_write_either two_pass ieee fx_o fx_sizes None fx_input with
+  | Ok f => match read_info f with
+            | Ok i => Some (Nlen f, map zh_res (i_zooms i),
+                            match zoom_interval (fun x => x) f i [97] 5 31 10 with Ok a => Some (map zview a) | _ => None end,
+                            match zoom_interval (fun x => x) f i [98] 0 50 4 with Ok a => Some (map zview a) | _ => None end)
+            | _ => None end
+  | _ => None end.
+
+Example C08_file_example_run : forall two_pass,
+  fx_run two_pass = Some (2279, [4; 10],
+    Some [(0, 10, 10, 1065353216, 1077936128, 1099431936, 1108082688);
+          (10, 12, 2, 1065353216, 1065353216, 1073741824, 1073741824);
+          (22, 32, 3, 1065353216, 1065353216, 1077936128, 1077936128)],
+    Some [(7, 9, 2, 1065353216, 1065353216, 1073741824, 1073741824)]).
+Proof. intros [|]; vm_compute; reflexivity. Qed.
+
+Example C08_file_example_hyps : forall two_pass,
+  exists f, BedZoomFit.bb_write_either two_pass ieee fx_o fx_sizes None fx_input = Ok f
+            /\ zoom_file_hyps fx_o fx_sizes fx_input f /\ zoom_res_u32 two_pass fx_o.
+Proof.
+  intros two_pass.
+  assert (E : exists f, BedZoomFit.bb_write_either two_pass ieee fx_o fx_sizes None fx_input = Ok f /\ Nlen f = 2279).
+  { destruct two_pass; (eexists; split; [vm_compute; reflexivity|vm_compute; reflexivity]). }
+  destruct E as (f & E & Hl). exists f. split; [exact E|]. split.
+  - unfold zoom_file_hyps. rewrite Hl. split; [cbn; lia|]. split; [vm_compute; reflexivity|]. split; [|split].
+    + unfold fx_input. repeat constructor; cbn [fst snd BigBedWrite.e_end bent]; try (unfold U32; vm_compute; reflexivity); discriminate.
+    + repeat constructor; cbn; unfold U32; lia.
+    + unfold U64. lia.
+  - destruct two_pass; unfold zoom_res_u32.
+    + unfold ZoomFile.manual_u32. cbn [o_manual fx_o]. repeat constructor; unfold U32; lia.
+    + assert (Es : zoom_sizes_single fx_o = [4; 10]) by (vm_compute; reflexivity). rewrite Es. repeat constructor; unfold U32; lia.
+Qed.
